@@ -37,6 +37,8 @@ type Reader struct {
 	//	maxlenSysex     int
 	sysexBf  []byte
 	sysexlen int
+	// sysexOverflow is set when the current sysex does not fit into the buffer; it is then dropped
+	sysexOverflow bool
 
 	ts_ms      int32
 	sysexTS    int32
@@ -134,6 +136,7 @@ func (r *Reader) cleanState(b byte) {
 		//sysexBf.WriteByte(b)
 		r.sysexBf[0] = b
 		r.sysexlen = 1
+		r.sysexOverflow = false
 		r.sysexTS = r.ts_ms
 		r.state = readerStateInSysEx
 	// end sysex
@@ -205,6 +208,7 @@ func (r *Reader) eachByte(b byte) {
 			//sysexBf.WriteByte(b)
 			r.sysexBf[0] = b
 			r.sysexlen = 1
+			r.sysexOverflow = false
 			r.state = readerStateInSysEx
 			return
 		}
@@ -219,6 +223,13 @@ func (r *Reader) eachByte(b byte) {
 				}
 			*/
 			r.state = readerStateClean
+			if r.HandleSysex && (r.sysexOverflow || r.sysexlen >= len(r.sysexBf)) {
+				// sysex messages larger than the buffer are ignored
+				r.sysexOverflow = false
+				r.sysexBf = nil
+				r.sysexlen = 0
+				return
+			}
 			if r.HandleSysex {
 				r.sysexBf[r.sysexlen] = b
 				r.sysexlen++
@@ -246,6 +257,10 @@ func (r *Reader) eachByte(b byte) {
 		}
 
 		if r.HandleSysex {
+			if r.sysexlen >= len(r.sysexBf) {
+				r.sysexOverflow = true
+				return
+			}
 			r.sysexBf[r.sysexlen] = b
 			r.sysexlen++
 		}
